@@ -383,7 +383,7 @@ fn gen_table(rng: &mut Rng, idx: u64) -> (Table, Meta) {
         }
         recs.push(rec);
     }
-    let layout = ["dedup", "shuffled+unreferenced", "duplicated", "suffix-shared"][((idx / 3) % 4) as usize];
+    let layout = ["dedup", "shuffled+unreferenced", "duplicated", "suffix-shared", "no-leading-nul"][((idx / 3) % 5) as usize];
     let rewrite_src = ["eager", "parallel", "mmap"][((idx / 2) % 3) as usize];
     let meta = Meta { n, keypos, keyty, keymode, pool: pool.len(), layout, rewrite_src, explicit_writer_schema: rng.bool() };
     (Table { fields, key, recs }, meta)
@@ -472,6 +472,20 @@ fn encode(t: &Table, layout: &str, rng: &mut Rng) -> Encoded {
             for s in order {
                 let o = store(&mut sb, s); // the empty string too: a lone NUL
                 offsets.entry(s).or_default().push(o);
+            }
+        }
+        "no-leading-nul" => {
+            // a block packed without the customary NUL in front (another tool's writer): the first text sits at offset 0 and the
+            // empty string is read at a terminator
+            let nonempty: Vec<&Arc<str>> = used.iter().filter(|s| !s.is_empty()).collect();
+            if !nonempty.is_empty() {
+                sb.clear();
+                offsets.clear();
+                for s in nonempty {
+                    let o = store(&mut sb, s);
+                    offsets.insert(s, vec![o]);
+                    offsets.entry("").or_default().push(o + s.len() as u32);
+                }
             }
         }
         _ => {
